@@ -2,8 +2,8 @@
 (* Property C05 on the specification.  One behaviour  (c, t) --Eval--> done  per calendar      *)
 (* configuration c and day t:                                                                  *)
 (*   holidays  = every subset of an HW-day window (HW = 7: Thu..Wed, HW = 10: Tue..Thu) that    *)
-(*               contains a whole weekend and a month end (anchors: 2000-01-31, a Monday, and  *)
-(*               2000-04-30, a Sunday),                                                        *)
+(*               contains a whole weekend and a month end (anchors: 2000-01-31, a Monday,      *)
+(*               2000-04-30, a Sunday, and the year end 1999-12-31, a Friday),                 *)
 (*   weekend   \in {Sat-Sun, Fri-Sat, Sun, none},  adj \in {f, p, m},                          *)
 (*   range     = the window widened by a margin <<before, after>> (<<21, 21>>: every n \in       *)
 (*               -NMax..NMax stays inside; <<2, 2>>: the edges of the claimed domain are        *)
@@ -21,7 +21,7 @@ EXTENDS Calendar, TLC, Json, FiniteSetsExt, IOUtils
 CONSTANTS HW,          \* width of the holiday window: 7 or 10
           Margins,     \* the margins <<before, after>> of the calendar's range around the window: numbers in MarginMenu
           MCMod,       \* model checking: only configurations whose number is 0 modulo MCMod (1 = all)
-          Anchors,     \* subset of {1, 2}
+          Anchors,     \* subset of {1, 2, 3}
           NMax,        \* n ranges over -NMax..NMax
           GenMod,      \* generator: print only configurations whose number is 0 modulo GenMod
           TPad         \* t ranges over the holiday window and TPad days on either side
@@ -29,7 +29,7 @@ CONSTANTS HW,          \* width of the holiday window: 7 or 10
 VARIABLES c, t, done
 vars == <<c, t, done>>
 
-MonthEnd(k) == IF k = 1 THEN Ord(2000, 1, 31) ELSE Ord(2000, 4, 30)
+MonthEnd(k) == CASE k = 1 -> Ord(2000, 1, 31) [] k = 2 -> Ord(2000, 4, 30) [] k = 3 -> Ord(1999, 12, 31)
 Before == IF HW = 7 THEN 4 ELSE 6
 WinLo(k) == MonthEnd(k) - Before
 WinHi(k) == WinLo(k) + HW - 1
